@@ -16,7 +16,9 @@ def main():
         m = re.match(r"(C\d\d-[A-Z]) \|.*?(C\d\d)\[(\w+)\]: rc=(\d+) (\w+)\s*(.*)$", line.strip())
         if m:
             name, pid, tier, rc, verdict, mech = m.groups()
-            rows[name] = (verdict, mech.split(";")[0].strip())
+            if name in rows and rows[name][0] == "CAUGHT" and verdict != "CAUGHT":
+                continue
+            rows[name] = (verdict, mech.split(";")[0].strip() + (" (thorough tier only)" if tier == "thorough" else ""))
     out = ["| change | what it does (needs: see seeded/<id>/meta.json) | first mechanism reported by the property's own quick check |",
            "|---|---|---|"]
     missed = []
@@ -26,7 +28,7 @@ def main():
         verdict, mech = rows.get(name, ("NOT-RUN", ""))
         if verdict != "CAUGHT":
             missed.append(name)
-        out.append("| %s | %s | %s |" % (name, summary, "`%s`" % mech if verdict == "CAUGHT" else verdict))
+        out.append("| %s | %s | %s |" % (name, summary, ("`%s`" % mech).replace(" (thorough tier only)`", "` (thorough tier only)") if verdict == "CAUGHT" else verdict))
     text = "\n".join(out) + "\n"
     if "--write" in sys.argv:
         p = os.path.join(HERE, "DESIGN.md")
